@@ -117,7 +117,7 @@ class FortranCodegenConservative(FortranCodegen):
                     # Get the `ELSE` from source to get its indentation
                     elseline = [
                         s for s in o.source.string.splitlines()
-                        if s.upper().strip() == 'ELSE'
+                        if s.upper().split('!', maxsplit=1)[0].strip() == 'ELSE'
                     ]
                     else_body = [elseline[-1]] + else_body
 
